@@ -745,7 +745,13 @@ def search_databases_with_abund_query(query, databases, **kwargs):
             # md5sum() covers the hashes only: the same hashes sketched at two
             # scaled values (or num values) are different sketches with
             # different scores, so they must not shadow each other.
-            md5 = (match.md5sum(), match.minhash.scaled, match.minhash.num)
+            # ... nor do two sketches with the same hashes but different abundances.
+            md5 = (
+                match.md5sum(),
+                match.minhash.scaled,
+                match.minhash.num,
+                tuple(sorted(match.minhash.hashes.items())),
+            )
             if md5 not in found_md5:
                 results.append((score, match, filename))
                 found_md5.add(md5)
